@@ -34,6 +34,7 @@ type World struct {
 	heapMeta  map[string]types.Type // heap name -> content type (field/elem/cell type; map type for MD/MV)
 	writes    map[*ssa.Function]map[string]bool
 	externals map[string]bool // external callees met without contract (assumption list)
+	initNonNil map[*ssa.Global]bool // package-level vars set once, in init, to a non-nil value
 }
 
 func qual(p *types.Package) string {
@@ -68,7 +69,7 @@ func funcKey(f *ssa.Function) string {
 func LoadWorld(repo string, specDirs []string) (*World, error) {
 	w := &World{repo: repo, repoPkgs: map[*types.Package]bool{}, allPkgs: map[string]*types.Package{},
 		funcs: map[string]*ssa.Function{}, dtSeen: map[string]bool{}, heapSorts: map[string]string{}, heapMeta: map[string]types.Type{},
-		writes: map[*ssa.Function]map[string]bool{}, externals: map[string]bool{}}
+		writes: map[*ssa.Function]map[string]bool{}, externals: map[string]bool{}, initNonNil: map[*ssa.Global]bool{}}
 	cfg := &packages.Config{Mode: packages.LoadAllSyntax, Dir: repo, BuildFlags: []string{"-tags=verif"}, Tests: false}
 	pkgs, err := packages.Load(cfg, "./...")
 	if err != nil {
@@ -109,6 +110,7 @@ func LoadWorld(repo string, specDirs []string) (*World, error) {
 	for _, k := range sortedKeys(w.funcs) {
 		w.funcList = append(w.funcList, w.funcs[k])
 	}
+	w.findInitNonNil()
 	// specs
 	w.heapSorts[heapAlloc] = "(Array Ref Bool)"
 	w.specs = NewSpecs()
@@ -522,4 +524,34 @@ func strLit(s string) string {
 		return "|str:" + s + "|"
 	}
 	return fmt.Sprintf("|strx:%x|", s)
+}
+
+// findInitNonNil: package-level variables of the repo that are assigned only
+// in the package initialiser, from regexp.MustCompile / a map or slice literal.
+func (w *World) findInitNonNil() {
+	stores := map[*ssa.Global][]*ssa.Store{}
+	for _, fn := range w.funcList {
+		for _, b := range fn.Blocks {
+			for _, in := range b.Instrs {
+				if st, ok := in.(*ssa.Store); ok {
+					if g, ok := st.Addr.(*ssa.Global); ok {
+						stores[g] = append(stores[g], st)
+					}
+				}
+			}
+		}
+	}
+	for g, sts := range stores {
+		if len(sts) != 1 || sts[0].Parent().Name() != "init" {
+			continue
+		}
+		switch v := sts[0].Val.(type) {
+		case *ssa.Call:
+			if c := v.Common().StaticCallee(); c != nil && c.String() == "regexp.MustCompile" {
+				w.initNonNil[g] = true
+			}
+		case *ssa.MakeMap, *ssa.Slice:
+			w.initNonNil[g] = true
+		}
+	}
 }
